@@ -140,7 +140,7 @@ def search(ctx, proof_broken, bad, dis):
                             env=d.get("env"), key="granted:" + d["op"].split("   ")[0].replace(" ", "_"),
                             replay_hint="OMP_THREAD_LIMIT=<n> <cache>/rel/pcharness  <<< '<op>'   vs the same without the limit"))
     # wp-s1phi0: the leaf-loop streams compare with a PROVED value: a disagreement is a failing input
-    leaf = [d for d in rest if d.get("stream", "").startswith("leafloops")]
+    leaf = [d for d in rest if d.get("stream", "").startswith(("leafloops", "requested-threads"))]
     if leaf:
         from ..runner import default_search
         default_search(ctx, None, [], leaf)
